@@ -9,16 +9,33 @@ From SeataV Require Import Base.Bytes Xa.XaModel Xa.XaProofs.
 Import ListNotations.
 Open Scope N_scope.
 
-(* for ALL programs, fault scripts and refusals: the commands ISSUED under one branch
-   identifier are START stmt* END PREPARE (COMMIT|ROLLBACK) or a failure prefix
-   START stmt* [END] ROLLBACK — each legal where it is issued, none rejected by the server *)
-Theorem C17_legal : forall E p id,
-  uniq_bid E -> no_double_end E -> id <> [] ->
-  legal_trace (cmds_of id (journal E p)) = true.
-Proof. exact legal_all. Qed.
+(* one autocommit branch on a free session, for EVERY combination of failures, the branch
+   timeout included: the commands ISSUED are START stmt* END PREPARE or a failure prefix
+   START stmt* [END] ROLLBACK — each legal where it is issued, none rejected by the server
+   (a second XA ROLLBACK of an already rolled back branch, answered XAER_NOTA, counts as a no-op).
+   The run-level statement over all programs is C17_accepted_legal below. *)
+Theorem C17_legal : forall detach slow fS fM fE fE2 fP fR fR2,
+  (fE = true -> fE2 = false) ->
+  let '(t, d, kept, o, act) := auto_local detach false slow fS fM fE fE2 fP fR fR2 in
+  exists s, legal_from S0 t = Some s /\ agree s d /\ (is_prepared d = true -> kept = true).
+Proof. exact auto_local_legal. Qed.
 
-(* no hypothesis on the fault script: the ACCEPTED commands of an identifier stay in the
-   language's prefix closure, in particular never COMMIT without a successful PREPARE *)
+(* phase two: a PREPARED branch finished on the connection the keeper names (or, detached, on a
+   free one), or a rollback request for a registered branch that never started: legal, and the
+   command is the one for the REQUEST's identifier (do_p2 builds xa_id of the request) *)
+Theorem C17_legal_phase2 : forall detach f d kept busy commit s,
+  agree s d ->
+  (is_prepared d = true /\ (attached d = true -> kept = true) /\ (attached d = false -> busy = false))
+  \/ (d = None /\ s = S0 /\ commit = false) ->
+  let '(cr, d') := p2_local detach f d kept busy commit in
+  exists s', legal_from s [cr] = Some s' /\ agree s' d'.
+Proof. exact p2_local_legal. Qed.
+
+(* for ALL programs (fresh and pool-reused connections, timeouts, phase two for prepared and for
+   failed-START branches, holder and stranger), ALL fault scripts and refusals: the commands the
+   server ACCEPTED for an identifier stay in the prefix closure of
+   START stmt* END PREPARE (COMMIT|ROLLBACK) | START stmt* END ROLLBACK,
+   in particular never COMMIT without a successful PREPARE *)
 Theorem C17_accepted_legal : forall E p id,
   uniq_bid E -> id <> [] -> accepted_legal (cmds_of id (journal E p)) = true.
 Proof. exact accepted_all. Qed.
@@ -45,19 +62,36 @@ Theorem C17_reg_first : forall E p, reg_first (journal E p) = true.
 Proof. exact reg_first_all. Qed.
 
 (* one autocommit branch (the function do_auto runs), for EVERY combination of failures at
-   START / statement / END / second END / PREPARE / ROLLBACK and both server families:
-   success is reported exactly when the branch is prepared after START stmt END PREPARE;
-   any failure before a successful PREPARE returns an error and never commits, and, when the
-   compensating commands are not made to fail as well, leaves the branch rolled back *)
-Theorem C17_failure : forall detach fS fM fE fE2 fP fR,
-  let '(t, d, kept, o) := auto_local detach fS fM fE fE2 fP fR in
-  (o = OOk <-> is_prepared d = true) /\
-  (o = OOk -> t = [(START, ROk); (STMT, ROk); (END_, ROk); (PREPARE, ROk)]) /\
+   START / statement / END / second END / PREPARE / ROLLBACK / second ROLLBACK, busy or free
+   session, timed out or not, both server families: never a COMMIT; success is reported exactly
+   when the branch is prepared after START stmt END PREPARE; any failure before a successful
+   PREPARE returns an error, and, when the compensating commands are not made to fail as well,
+   leaves the branch rolled back (or never started). The hypothesis `slow -> fR = false` is the
+   listed finding xa.timeout.rollback-fault (C17_timeout_refuted). *)
+Theorem C17_failure : forall detach busy slow fS fM fE fE2 fP fR fR2,
+  let '(t, d, kept, o, act) := auto_local detach busy slow fS fM fE fE2 fP fR fR2 in
   (o = OOk \/ o = OErr) /\
-  ((fS || fM || fE || fP) = true -> o = OErr /\ ~ In (COMMIT, ROk) t) /\
-  ((fS || fM || fE || fP) = true -> fR = false -> (fE = true -> fE2 = false) -> (fM = true -> fE = false) ->
-     d = None /\ (fS = true \/ last t (START, ROk) = (ROLLBACK, ROk))).
+  ~ In (COMMIT, ROk) t /\
+  ((slow = true -> fR = false) ->
+     (o = OOk <-> is_prepared d = true) /\
+     (o = OOk -> t = [(START, ROk); (STMT, ROk); (END_, ROk); (PREPARE, ROk)])) /\
+  ((slow = true -> fR = false) -> (busy || slow || fS || fM || fE || fP) = true -> o = OErr) /\
+  ((busy || slow || fS || fM || fE || fP) = true -> fR = false -> (fE = true -> fE2 = false) -> (fM = true -> fE = false) ->
+     d = None /\ (fS = true \/ busy = true \/ In (ROLLBACK, ROk) t)).
 Proof. exact auto_local_failure. Qed.
+
+(* a timed-out branch returns an error to the caller, is rolled back, released, and inactive *)
+Theorem C17_timeout : forall detach fE2 fP fR2,
+  let '(t, d, kept, o, act) := auto_local detach false true false false false fE2 fP false fR2 in
+  o = OErr /\ d = None /\ kept = false /\ act = false /\
+  exists r, t = [(START, ROk); (STMT, ROk); (END_, ROk); (ROLLBACK, ROk); (ROLLBACK, r)] /\ r <> ROk.
+Proof. exact auto_local_timeout. Qed.
+
+Theorem C17_timeout_refuted :
+  exists detach fE2 fP,
+    let '(t, d, kept, o, act) := auto_local detach false true false false false fE2 fP true false in
+    o = OOk /\ is_prepared d = false /\ In (ROLLBACK, ROk) t.
+Proof. exact auto_local_timeout_refuted. Qed.
 
 (* ---- non-vacuity *)
 Definition ex_env : env :=
@@ -67,7 +101,11 @@ Definition ex_env : env :=
      e_refuse := fun k => Nat.eqb k 3;
      e_fault := fun c n => match c, n with PREPARE, 1%nat => true | _, _ => false end |}.
 Definition ex_prog : list op :=
-  [OAuto 0; OAuto 1; OLocal; OPhase2 0 true false; OAuto 0; OAuto 1; OPhase2 4 false true].
+  [OAuto 0 None false; OAuto 1 None false; OLocal; OPhase2 0 true false; OAuto 0 None false;
+   OAuto 1 None false; OPhase2 4 false true;
+   OAuto 1 (Some 1%nat) false;   (* the connection of the rolled-back branch, out of the pool again *)
+   OAuto 0 None true;            (* branch timeout *)
+   OPhase2 7 true false].
 
 Example C17_env_nonvacuous : uniq_bid ex_env /\ no_double_end ex_env.
 Proof.
@@ -85,8 +123,14 @@ Example C17_run_nonvacuous :
     = [(START, ROk); (STMT, ROk); (END_, ROk); (PREPARE, RFault); (ROLLBACK, ROk)]
   /\ cmds_of (xa_id (e_xid ex_env 0) 102) (journal ex_env ex_prog)
     = [(START, ROk); (STMT, ROk); (END_, ROk); (PREPARE, ROk); (ROLLBACK, ROk)]
-  /\ outcomes ex_env ex_prog = [OOk; OErr; OOk; OP2 true; OOk; OErr; OP2 true]
-  /\ length (journal ex_env ex_prog) = 21%nat.
+  /\ (* second branch on the pooled connection #2 after the rolled-back one; committed by phase two *)
+     cmds_of (xa_id (e_xid ex_env 1) 104) (journal ex_env ex_prog)
+    = [(START, ROk); (STMT, ROk); (END_, ROk); (PREPARE, ROk); (COMMIT, ROk)]
+  /\ (* branch timeout *)
+     cmds_of (xa_id (e_xid ex_env 0) 105) (journal ex_env ex_prog)
+    = [(START, ROk); (STMT, ROk); (END_, ROk); (ROLLBACK, ROk); (ROLLBACK, RNota)]
+  /\ outcomes ex_env ex_prog = [OOk; OErr; OOk; OP2 true; OOk; OErr; OP2 true; OOk; OErr; OP2 true]
+  /\ length (journal ex_env ex_prog) = 33%nat.
 Proof. vm_compute. repeat split. Qed.
 
 Example C17_ident_nonvacuous :
